@@ -45,6 +45,7 @@ func checkC13(c *Ctx, r *Report) {
 	c13Names(c, r, vreach)
 	c13InOut(c, r, vreach)
 	c13Wrap(c, r)
+	c13Walk(c, r)
 	tableIncrRule(c, r, "C13.UNIQT", "two definitions of one type or directive name in a single document are both accepted: the uniqueness rule for type names is not enforced inside one load")
 	c13NonEmpty(c, r, vreach)
 	c13DirUse(c, r, vreach)
@@ -763,4 +764,70 @@ func c13Wrap(c *Ctx, r *Report) {
 		r.check("C13.WRAP", nm+": descends through List.Base and NonNull.Base", fn.Pos(), desc >= 2, "the predicate does not look inside both wrapper kinds")
 	}
 	r.floor("C13.WRAP", "non-recursive answers of the class predicates", n, 4)
+}
+
+// c13Walk: the validation pass after a load walks the complete type table and the complete directive
+// table. The rules relate definitions to one another (an object to the interfaces it implements, a
+// union to its members, a use to its directive), so a load that only adds or extends one definition
+// can invalidate another that it does not touch.
+func c13Walk(c *Ctx, r *Report) {
+	r.rule("C13.WALK", "Root.validate applies Validate / validateTypeName / validateDirUses inside loops that range over Root.types.list and Root.dirs.list themselves")
+	vf := c.fn("(*Root).validate")
+	if vf == nil {
+		r.undecided("C13.WALK", "anchor (*Root).validate", token.NoPos, "not found")
+		return
+	}
+	loops := loopsOf(vf)
+	tableOfLoop := func(l *loopInfo) string {
+		found := ""
+		for b := range l.body {
+			for _, in := range b.Instrs {
+				var x ssa.Value
+				switch t := in.(type) {
+				case *ssa.IndexAddr:
+					x = t.X
+				case *ssa.Next:
+					if rg, ok := t.Iter.(*ssa.Range); ok {
+						x = rg.X
+					}
+				}
+				if x == nil {
+					continue
+				}
+				// x = load of typeList.list of (load of Root.types | Root.dirs)
+				if base, o, f, ok := loadOfField(x); ok && o == "typeList" && f == "list" {
+					if _, o2, f2, ok2 := loadOfField(base); ok2 && o2 == "Root" {
+						found = f2
+					}
+				}
+			}
+		}
+		return found
+	}
+	n := 0
+	seen := map[string]bool{}
+	for _, ci := range callsIn(vf) {
+		cc := ci.Common()
+		what := ""
+		switch {
+		case cc.IsInvoke() && cc.Method.Name() == "Validate":
+			what = "Validate"
+		case cc.StaticCallee() != nil && (cc.StaticCallee().Name() == "validateTypeName" || cc.StaticCallee().Name() == "validateDirUses"):
+			what = cc.StaticCallee().Name()
+		default:
+			continue
+		}
+		n++
+		l := innermostLoop(loops, ci.Block())
+		tbl := ""
+		if l != nil {
+			tbl = tableOfLoop(l)
+		}
+		seen[what+":"+tbl] = true
+		r.check("C13.WALK", fmt.Sprintf("%s: %s #%d is applied to every entry of a root table", fnName(vf), what, n), ci.Pos(), tbl != "",
+			"the check runs over something other than Root.types.list / Root.dirs.list (a list of the definitions changed by this load): a definition that became invalid because another one was extended is not re-checked, and the same text loaded as one document is refused")
+	}
+	for _, want := range []string{"Validate:types", "validateTypeName:types", "validateDirUses:types", "validateTypeName:dirs"} {
+		r.check("C13.WALK", "validation pass covers "+want, vf.Pos(), seen[want], "no such loop in Root.validate")
+	}
 }
